@@ -90,7 +90,7 @@ func enumerate(thorough bool) (cells []*Cell, nominal int, skipped skipCount) {
 		{"reader", ""}, {"writer", ""}, {"map", ""}, {"filter", ""}, {"flatmap", ""}, {"fold", ""},
 		{"combiner", "table"}, {"combiner", "buffer"}, {"combiner", "merge"}, {"repart", ""}, {"scan", ""},
 	}
-	modes := []string{"err", "tempbase", "tempnet", "tempsentinel", "panic", "oorhi", "oorneg"}
+	modes := []string{"err", "tempbase", "tempnet", "tempsentinel", "tempretriable", "panic", "oorhi", "oorneg"}
 	perss := []string{"always", "once", "twice"}
 	type position struct {
 		name          string
@@ -426,7 +426,7 @@ type verdict struct {
 }
 
 func isTemp(mode string) bool {
-	return mode == "tempbase" || mode == "tempnet" || mode == "tempsentinel"
+	return mode == "tempbase" || mode == "tempnet" || mode == "tempsentinel" || mode == "tempretriable"
 }
 
 // msgRequired: "carrying the user's message for reader and writer errors and for every panic".
@@ -806,7 +806,7 @@ func main() {
 	r.Finish(ev.Coverage{
 		"evaluations":         atomic.LoadInt64(&nRuns),
 		"distinct_nontrivial": fired,
-		"rule": "cells = call site {ReaderFunc, WriterFunc, Map, Filter, Flatmap, Fold, Reduce combiner @ task-local table / shared (per-task or per-machine) combine buffer / consumer-side merge, Repartition fn, Scan callback} x mode {error, temporary (base errors.Temporary), temporary (net-style Temporary()), temporary (one package-level *errors.Error sentinel returned every time), panic, partition >= n, partition < 0} x {always, once, twice (temporary modes; fails the first two times it is reached in a run)} x position {first row, first row after the vector boundary, last row (of the last shard), at EOF} x pipeline {armed operator last; ... -> Reduce} x configuration {local, verifsystem 1 machine, same + MachineCombiners (+ 2 machines for the consumer merge)" +
+		"rule": "cells = call site {ReaderFunc, WriterFunc, Map, Filter, Flatmap, Fold, Reduce combiner @ task-local table / shared (per-task or per-machine) combine buffer / consumer-side merge, Repartition fn, Scan callback} x mode {error, temporary (base errors.Temporary), temporary (net-style Temporary()), temporary (one package-level *errors.Error sentinel returned every time), temporary (base errors.Retriable severity: 'can be safely retried'), panic, partition >= n, partition < 0} x {always, once, twice (temporary modes; fails the first two times it is reached in a run)} x position {first row, first row after the vector boundary, last row (of the last shard), at EOF} x pipeline {armed operator last; ... -> Reduce} x configuration {local, verifsystem 1 machine, same + MachineCombiners (+ 2 machines for the consumer merge)" +
 			map[bool]string{true: ", verifsystem 4 one-proc machines", false: ""}[r.Thorough()] + "}; vector size 3 with 7 rows/shard (4 and 9 where a Reduce is present: combining frames need a power of two); 2 shards. For transient temporary failures of ReaderFunc/WriterFunc feeding a Reduce on the cluster configurations additionally two forced interleavings (user functions coordinate through in-process gates, 20 s gate timeout = not forced): the other shard's task is still running when the failing attempt exits and until its re-run has read its input / has read all its input before the first failure. After the failing run the failing Func is run again in the same session (local: once per proc; clusters: once; transient failures fire again in each of these runs and must again go away), then a healthy Func whose tasks are Exclusive (need all procs). A cell is non-trivial iff its user function actually delivered the failure (counted by the function itself) or the process died in it. evaluations = cell executions including confirmation re-runs.",
 		"cells_nominal":                             nominal,
 		"cells_meaningful":                          len(cells),
